@@ -6,6 +6,7 @@ EXTENDS IourDriver, Json
 
 CONSTANTS o1, o2, o3, MaxLen
 KindDef == (o1 :> "single") @@ (o2 :> "multi") @@ (o3 :> "blocking")
+KindZ == (o1 :> "single") @@ (o2 :> "zc") @@ (o3 :> "blocking")
 OpName(o) == IF o = o1 THEN "o1" ELSE IF o = o2 THEN "o2" ELSE "o3"
 
 VARIABLE hist
@@ -42,6 +43,6 @@ GNext ==
 GSpec == GInit /\ [][GNext]_gvars
 
 Done == (mon.ended \/ Len(hist) >= MaxLen) /\ drv \notin {"drained", "closed"} /\ ~(drv = "gone" /\ jobs = {} /\ chan # <<>>)
-EmitInv == Done => PrintT(<<"REPLAY", ToJson([sqcap |-> SQCAP, kinds |-> [o1 |-> "single", o2 |-> "multi", o3 |-> "blocking"],
+EmitInv == Done => PrintT(<<"REPLAY", ToJson([sqcap |-> SQCAP, kinds |-> [o1 |-> Kind[o1], o2 |-> Kind[o2], o3 |-> Kind[o3]],
                                               steps |-> hist])>>)
 =============================================================================
